@@ -6,7 +6,15 @@ consecutive row blocks, exactly what mj_contactForce expects) and mujoco.mj_cont
 mjw.contact_force is called once for ALL worlds' contacts in random order (with repeats and inactive contacts) and must
 return the same 6-vectors; the to_world_frame=True output must equal frame^T applied to the local force and torque.
 An independent numpy decode (documented pyramid/elliptic formulas) cross-checks the MjData filling.
+
+Exact-fit capacities: every scene is evaluated a second time on a Data whose njmax equals the largest number of rows any
+of its worlds needs and whose naconmax equals the number of contacts (nothing overflows; the last pyramid edge / last
+elliptic row of some contact sits at row njmax-1, the last contact at slot naconmax-1). A dedicated 'fit' family (bodies
+spinning, rolling and sliding on a plane and against each other, one target condim per case, worlds with different row
+counts) makes those last rows carry non-zero force in every cone x condim combination.
 """
+
+import copy
 
 import mujoco
 import numpy as np
@@ -20,8 +28,10 @@ ID = "C39"
 LEVEL = "exploration"
 RULE = (
   "case=(kind,seed): generated contact scene (condim 1/3/4/6, margins -> inactive contacts, geom adhesion), pile or repo "
-  "model under pyramidal/elliptic cones, 3 worlds; after forward() and after one step() contact_force is requested for all "
-  "pool contacts of all worlds in one call, ids shuffled with repeats, both to_world_frame values. Non-trivial: >=2 "
+  "model under pyramidal/elliptic cones, or a 'fit' scene (2-5 spinning/rolling/sliding bodies of one target condim on a "
+  "plane), 3 worlds; after forward() and after one step() contact_force is requested for all pool contacts of all worlds in "
+  "one call, ids shuffled with repeats, both to_world_frame values; then the same states are evaluated again on a Data with "
+  "exact-fit capacities (njmax = rows needed by the fullest world, naconmax = number of contacts). Non-trivial: >=2 "
   "contacts with non-zero decoded force; distinct by hash(xml, qpos)."
 )
 ASSUMPTIONS = [
@@ -29,23 +39,31 @@ ASSUMPTIONS = [
   "filled by the harness from MJWarp's arrays is the reference decoder; the filling is cross-checked by a numpy decode",
   "float32 allowance 8*eps32*(sum|row forces|*(1+max friction)+|adhesion|): the decode is a handful of adds/multiplies",
   "contact ids >= nacon are not requested (behaviour for invalid ids is C17's subject)",
+  "exact-fit pass: the capacities are the row/contact counts MJWarp itself reported with spare capacity; a pass in which "
+  "any overflow bit is raised or no world is exactly full is not counted as exact-fit coverage",
 ]
-BUDGET = {"quick": 100, "thorough": 1000}
+BUDGET = {"quick": 130, "thorough": 1200}
+
+CONDIMS = (1, 3, 4, 6)
 
 
 def cases(tier, seed):
   out = []
   ngen = 60 if tier == "quick" else 1200
   npile = 16 if tier == "quick" else 300
+  nfit = 64 if tier == "quick" else 960
   combos = [(c, s, j) for c in ("pyramidal", "elliptic") for s in ("Newton", "CG") for j in ("dense", "sparse")]
   for i in range(ngen):
-    out.append({"id": f"gen{seed}_{i}", "kind": "gen", "seed": seed * 100000 + i, "settle": (0, 20)[i % 2], "exact_geoms": 0})
+    out.append({"id": f"gen{seed}_{i}", "kind": "gen", "seed": seed * 100000 + i, "settle": (0, 20)[i % 2], "exact_geoms": 0, "fit": int(i % 3 == 0)})
   for i in range(npile):
     c, s, j = combos[i % 8]
-    out.append({"id": f"pile{seed}_{i}", "kind": "pile", "seed": seed * 100000 + 50000 + i, "n": (3, 4, 5, 8)[(i // 8) % 4], "cone": c, "solver": s, "jac": j, "settle": (60, 0)[i % 2], "exact_geoms": 0, "weight": 2})
+    out.append({"id": f"pile{seed}_{i}", "kind": "pile", "seed": seed * 100000 + 50000 + i, "n": (3, 4, 5, 8)[(i // 8) % 4], "cone": c, "solver": s, "jac": j, "settle": (60, 0)[i % 2], "exact_geoms": 0, "weight": 2, "fit": int(i % 4 == 1)})
   for r in range(4 if tier == "quick" else 24):
     c, s, j = combos[r % 8]
-    out.append({"id": f"repo{seed}_{r}", "kind": "repo", "path": ("collision.xml", "humanoid/humanoid.xml")[r % 2], "seed": seed * 100000 + 90000 + r, "cone": c, "solver": s, "jac": j, "settle": 20, "exact_geoms": 0, "weight": 2})
+    out.append({"id": f"repo{seed}_{r}", "kind": "repo", "path": ("collision.xml", "humanoid/humanoid.xml")[r % 2], "seed": seed * 100000 + 90000 + r, "cone": c, "solver": s, "jac": j, "settle": 20, "exact_geoms": 0, "weight": 2, "fit": 0})
+  for i in range(nfit):
+    c, s, j = combos[i % 8]
+    out.append({"id": f"fit{seed}_{i}", "kind": "fit", "seed": seed * 100000 + 70000 + i, "cone": c, "solver": s, "jac": j, "condim": CONDIMS[(i // 8) % 4], "n": (2, 3, 5, 4)[(i // 32) % 4], "mixed": int((i // 2) % 4 == 3), "settle": (0, 0, 2, 0)[i % 4], "fit": 1})
   return out
 
 
@@ -61,6 +79,227 @@ def numpy_decode(cone_elliptic, dim, fr, forces, adhesion):
   return out
 
 
+# ------------------------------------------------------------------------------------------------ 'fit' scenes
+
+
+def fit_scene(case, rng):
+  """Bodies of one target condim resting on / pressed into a plane (some also touching their neighbour), with linear
+  and angular velocities so that sliding, torsional and rolling rows all carry force. Returns the MJCF text."""
+  n = case["n"]
+  tgt = case["condim"]
+  bodies = ""
+  x = 0.0
+  for i in range(n):
+    kind = ("sphere", "capsule", "ellipsoid", "box", "cylinder")[int(rng.integers(5))]
+    cd = tgt if not case["mixed"] or i == 0 else int(rng.choice(CONDIMS))
+    r = float(rng.uniform(0.07, 0.12))
+    pen = float(rng.uniform(0.001, 0.01))
+    if kind == "sphere":
+      size, hz = f"{r:.4g}", r
+    elif kind == "capsule":
+      h = float(rng.uniform(0.03, 0.1))
+      size, hz = f"{r:.4g} {h:.4g}", r + h
+    elif kind == "cylinder":
+      h = float(rng.uniform(0.05, 0.1))
+      size, hz = f"{r:.4g} {h:.4g}", h
+    elif kind == "ellipsoid":
+      rz = float(rng.uniform(0.06, 0.1))
+      size, hz = f"{r:.4g} {float(rng.uniform(0.07, 0.12)):.4g} {rz:.4g}", rz
+    else:
+      hz = float(rng.uniform(0.05, 0.1))
+      size = f"{r:.4g} {float(rng.uniform(0.07, 0.12)):.4g} {hz:.4g}"
+    fr = f"{rng.uniform(0.3, 1.2):.3g} {rng.uniform(0.005, 0.05):.3g} {rng.uniform(0.002, 0.02):.3g}"
+    extra = ""
+    if rng.random() < 0.2:
+      extra += f' solimp="{rng.uniform(0.8, 0.95):.3g} 0.99 0.001"'
+    bodies += (
+      f'<body pos="{x:.4g} {rng.uniform(-0.03, 0.03):.3g} {hz - pen:.5g}"><freejoint/>'
+      f'<geom type="{kind}" size="{size}" condim="{cd}" friction="{fr}" mass="{rng.uniform(0.3, 3):.3g}"{extra}/></body>'
+    )
+    # spacing: sometimes close enough that neighbours touch as well (body-body contact, condim = max of the two)
+    x += float(rng.uniform(0.15, 0.23)) if rng.random() < 0.4 else float(rng.uniform(0.3, 0.45))
+  pfr = f"{rng.uniform(0.3, 1.2):.3g} {rng.uniform(0.005, 0.05):.3g} {rng.uniform(0.002, 0.02):.3g}"
+  imp = ' impratio="{:.3g}"'.format(rng.uniform(1, 5)) if rng.random() < 0.3 else ""
+  # margin only on the plane (plane pairs are primitive; put_model rejects a margin on convex-convex pairs)
+  pmargin = f' margin="{rng.uniform(0.0, 0.02):.3g}"' if rng.random() < 0.4 else ""
+  xml = (
+    f'<mujoco><option cone="{case["cone"]}" solver="{case["solver"]}" jacobian="{case["jac"]}"{imp}/>'
+    f'<worldbody><geom type="plane" size="5 5 .01" condim="1" friction="{pfr}"{pmargin}/>{bodies}</worldbody></mujoco>'
+  )
+  return xml
+
+
+def fit_states(mjm, case, rng, nworld):
+  """World 0: every body in contact; other worlds: random subsets lifted clear of the plane (fewer rows than world 0,
+  so exactly-full and partly-filled worlds share one Data)."""
+  states = []
+  nb = mjm.nbody - 1
+  for w in range(nworld):
+    st = gen.sample_state(mjm, rng, vel=0.0, quat_scale=False)
+    qpos = np.array(mjm.qpos0, dtype=np.float64)
+    qvel = np.zeros(mjm.nv)
+    for b in range(nb):
+      qvel[6 * b : 6 * b + 3] = rng.normal(size=3) * (0.5, 0.5, 0.1)
+      qvel[6 * b + 3 : 6 * b + 6] = rng.normal(size=3) * 4.0
+      if rng.random() < 0.3:
+        qvel[6 * b : 6 * b + 6] = 0.0  # a resting body: all pyramid edges share the load
+      if w and rng.random() < 0.35:
+        qpos[7 * b + 2] += 0.5
+    st["qpos"] = qpos.astype(np.float32)
+    st["qvel"] = qvel.astype(np.float32)
+    states.append(S.settle(mjm, st, case["settle"]))
+  return states
+
+
+# ------------------------------------------------------------------------------------------------ evaluation
+
+
+def evaluate(rec, mjw, wp, mjm, m, d, rng, fit):
+  """One oracle evaluation on the current Data; returns the number of non-zero decoded contacts, None when skipped."""
+  ell = mjm.opt.cone == mujoco.mjtCone.mjCONE_ELLIPTIC
+  cone = "elliptic" if ell else "pyramidal"
+  nworld = d.nworld
+  nacon = int(mw.npy(d.nacon)[0])
+  nefc_all = mw.npy(d.nefc)
+  if nacon > d.naconmax or np.any(nefc_all > d.njmax) or nacon == 0 or not np.all(np.isfinite(mw.npy(d.qacc))) or np.any(mw.overflow(d) & (E.OVF_NEFC | E.OVF_NNZ | E.OVF_CONTACT)):
+    rec.count("fit:evaluations_skipped(capacity/no contacts/diverged)" if fit else "evaluations_skipped(capacity/no contacts/diverged)")
+    return None
+  cw = mw.contacts(d, None)
+  wid = cw["worldid"]
+  force_all = np.asarray(mw.npy(d.efc.force), dtype=np.float64)
+  adh = np.asarray(mw.npy(d.contact.adhesion), dtype=np.float64)[:nacon]
+  # ---- reference: mj_contactForce on hand-filled MjData, world by world
+  ref = np.zeros((nacon, 6))
+  mag = np.zeros(nacon)
+  active = np.zeros(nacon, dtype=bool)
+  at_cap = np.zeros(nacon, dtype=bool)  # contact whose last row is row njmax-1
+  at_cap_nz = np.zeros(nacon, dtype=bool)
+  bad_world = set()
+  for w in range(nworld):
+    sel = np.nonzero(wid == w)[0]
+    if not len(sel):
+      continue
+    blocks, fvec = [], []
+    for c in sel:
+      dim = int(cw["dim"][c])
+      nd = dim if (ell or dim == 1) else 2 * (dim - 1)
+      a = cw["efc_address"][c][:nd]
+      if a[0] < 0:
+        blocks.append(-1)
+        continue
+      if np.any(a < 0) or np.any(a >= nefc_all[w]):
+        bad_world.add(w)  # partially addressed contact: C05 reports that; not decodable
+        blocks.append(-1)
+        continue
+      blocks.append(len(fvec))
+      fvec.extend(force_all[w][a].tolist())
+      active[c] = True
+      mag[c] = float(np.abs(force_all[w][a]).sum()) * (1.0 + float(np.max(cw["friction"][c]))) + abs(adh[c])
+      if int(np.max(a)) == d.njmax - 1:
+        at_cap[c] = True
+        at_cap_nz[c] = force_all[w][d.njmax - 1] != 0
+    md = mujoco.MjData(mjm)
+    mujoco._functions._realloc_con_efc(md, ncon=len(sel), nefc=max(1, len(fvec)), nJ=max(1, len(fvec)) * mjm.nv)
+    md.ncon = len(sel)
+    md.efc_force[: len(fvec)] = np.array(fvec)
+    for i, c in enumerate(sel):
+      md.contact.dim[i] = int(cw["dim"][c])
+      md.contact.friction[i] = np.asarray(cw["friction"][c], dtype=np.float64)
+      md.contact.frame[i] = np.asarray(cw["frame"][c], dtype=np.float64).reshape(9)
+      md.contact.adhesion[i] = adh[c]
+      md.contact.efc_address[i] = blocks[i]
+      md.contact.geom[i] = cw["geom"][c]
+    for i, c in enumerate(sel):
+      out = np.zeros(6)
+      mujoco.mj_contactForce(mjm, md, i, out)
+      ref[c] = out
+      if blocks[i] >= 0:
+        dim = int(cw["dim"][c])
+        nd = dim if (ell or dim == 1) else 2 * (dim - 1)
+        mine = numpy_decode(ell, dim, np.asarray(cw["friction"][c], dtype=np.float64), np.array(fvec[blocks[i] : blocks[i] + nd]), adh[c])
+        rec.check()
+        if np.abs(mine - out).max() > 1e-9 * max(1.0, mag[c]):
+          rec.inconcl("reference self-check failed: numpy decode != mj_contactForce on the filled MjData")
+          rec.count("ORACLE_SELFTEST_FAILED")
+          bad_world.add(w)
+  # ---- observed: one call for all worlds, shuffled ids with repeats
+  ids = np.concatenate([np.arange(nacon), rng.integers(0, nacon, size=max(2, nacon // 3))]).astype(np.int32)
+  rng.shuffle(ids)
+  got = {}
+  for flag in (False, True):
+    out = wp.zeros(len(ids), dtype=wp.spatial_vector)
+    mjw.contact_force(m, d, wp.array(ids, dtype=int), flag, out)
+    got[flag] = out.numpy().astype(np.float64)
+  frames = np.asarray(cw["frame"], dtype=np.float64).reshape(-1, 3, 3)
+  worst_l, worst_w = 0.0, 0.0
+  nonzero = 0
+  for j, c in enumerate(ids):
+    if int(wid[c]) in bad_world:
+      continue
+    bound = 8 * E.EPS32 * mag[c] + 1e-12
+    loc = got[False][j]
+    rec.check()
+    err = float(np.abs(loc - ref[c]).max())
+    worst_l = max(worst_l, err / bound)
+    dim = int(cw["dim"][c])
+    where = ":contact-row-at-njmax-1" if at_cap[c] else (":last-slot-naconmax-1" if (fit and c == d.naconmax - 1) else "")
+    if not np.all(np.isfinite(loc)):
+      rec.viol("contact_force:nonfinite" + where, f"contact_force returned non-finite values for contact {c} (world {wid[c]}, condim {dim}, {cone})")
+    elif err > 30 * bound:
+      comp = int(np.argmax(np.abs(loc - ref[c])))
+      rec.viol(
+        f"contact_force!=mj_contactForce:{cone}:condim{dim}:component{comp}{where}",
+        f"contact {c} (world {wid[c]}, condim {dim}, {cone}, adhesion {adh[c]:.3g}, active {bool(active[c])}, njmax {d.njmax}, nefc {int(nefc_all[wid[c]])}, "
+        f"naconmax {d.naconmax}, rows {cw['efc_address'][c][: max(1, dim if ell else 2 * (dim - 1))].tolist()}): contact_force={loc.tolist()} mj_contactForce={ref[c].tolist()}",
+        friction=np.asarray(cw["friction"][c]),
+      )
+    elif err > bound:
+      rec.inconcl("contact_force vs mj_contactForce in grey zone")
+    # world frame = frame^T applied to force and torque
+    wv = got[True][j]
+    want = np.concatenate([frames[c].T @ loc[:3], frames[c].T @ loc[3:]])
+    errw = float(np.abs(wv - want).max())
+    wb = 8 * E.EPS32 * float(np.abs(loc).sum()) + 1e-12
+    worst_w = max(worst_w, errw / wb)
+    rec.check()
+    if errw > 30 * wb:
+      rec.viol(f"contact_force:to_world_frame:{cone}" + where, f"contact {c}: world-frame output {wv.tolist()} != frame^T local {want.tolist()}")
+    if active[c]:
+      rec.cover(f"decoded:{cone}:condim{dim}", 1)
+      if np.any(ref[c] != 0):
+        rec.cover(f"decoded_nonzero:{cone}:condim{dim}", 1)
+        nonzero += 1
+      if adh[c] != 0:
+        rec.cover("decoded_with_adhesion", 1)
+      if dim > 1 and np.any(ref[c][1:dim] != 0):
+        rec.cover(f"decoded_tangential_nonzero:{cone}", 1)
+      if dim > 3 and np.any(ref[c][3:dim] != 0):
+        rec.cover(f"decoded_torsion_rolling_nonzero:{cone}", 1)
+      if fit and at_cap[c]:
+        rec.cover(f"fit:contact_row_at_njmax-1:{cone}:condim{dim}", 1)
+        if at_cap_nz[c]:
+          rec.cover(f"fit:contact_row_at_njmax-1_nonzero_force:{cone}:condim{dim}", 1)
+          if adh[c] != 0:
+            rec.cover("fit:contact_row_at_njmax-1_with_adhesion", 1)
+      if fit and c == d.naconmax - 1:
+        rec.cover("fit:decoded_contact_in_last_slot(naconmax-1)", 1)
+    else:
+      rec.cover("requested_inactive_contacts", 1)
+  rec.worst("contact_force_local", worst_l)
+  rec.worst("contact_force_world", worst_w)
+  rec.cover("calls", 2)
+  rec.cover("ids_requested", int(len(ids)))
+  rec.cover("calls_mixing_worlds", int(len(set(wid[ids].tolist())) > 1))
+  if fit:
+    full = int(np.sum(nefc_all == d.njmax))
+    rec.cover("fit:evaluations", 1)
+    rec.cover("fit:worlds_exactly_full(nefc==njmax)", full)
+    rec.cover("fit:worlds_partly_filled", int(nworld - full))
+    rec.cover("fit:evaluations_nacon==naconmax", int(nacon == d.naconmax))
+    rec.cover("fit:evaluations_mixing_full_and_partly_filled_worlds", int(0 < full < nworld))
+  return nonzero
+
+
 def run_case(case):
   import warp as wp
 
@@ -71,6 +310,9 @@ def run_case(case):
   if case["kind"] == "gen":
     xml, mjm, feat, _ = gen.make_model(case["seed"], C24.PROFILE)
     feat = feat or []
+  elif case["kind"] == "fit":
+    xml = fit_scene(case, rng)
+    mjm, feat = gen.compile_xml(xml), ["scene:fit"]
   else:
     xml, mjm, feat = C06.build(case, rng)
   if mjm is None:
@@ -82,16 +324,18 @@ def run_case(case):
     rec.rejected = f"put_model: {e}"[:200]
     rec.count("rejected_put_model")
     return rec.result()
-  ell = mjm.opt.cone == mujoco.mjtCone.mjCONE_ELLIPTIC
-  cone = "elliptic" if ell else "pyramidal"
+  cone = "elliptic" if mjm.opt.cone == mujoco.mjtCone.mjCONE_ELLIPTIC else "pyramidal"
   nworld = 3
-  states = []
-  for w in range(nworld):
-    st = gen.sample_state(mjm, rng, vel=float(rng.choice([0.0, 0.5])), quat_scale=False)
-    if case["kind"] in ("pile", "repo") and w < 2:
-      st["qpos"] = (np.array(mjm.qpos0) + (rng.normal(size=mjm.nq) * 0.01 if w else 0)).astype(np.float32)
-      st["qvel"] = (st["qvel"] * 0.1).astype(np.float32)
-    states.append(S.settle(mjm, st, case["settle"]))
+  if case["kind"] == "fit":
+    states = fit_states(mjm, case, rng, nworld)
+  else:
+    states = []
+    for w in range(nworld):
+      st = gen.sample_state(mjm, rng, vel=float(rng.choice([0.0, 0.5])), quat_scale=False)
+      if case["kind"] in ("pile", "repo") and w < 2:
+        st["qpos"] = (np.array(mjm.qpos0) + (rng.normal(size=mjm.nq) * 0.01 if w else 0)).astype(np.float32)
+        st["qvel"] = (st["qvel"] * 0.1).astype(np.float32)
+      states.append(S.settle(mjm, st, case["settle"]))
   need, ncon = 0, 0
   try:
     for st in states:
@@ -109,144 +353,77 @@ def run_case(case):
     return rec.result()
   d = mw.make_data(mjm, m, states, njmax=njmax, nconmax=max(64, 3 * ncon + 16))
   nonzero_total = 0
+  fitcap = None
   for k in range(2):
     if k == 0:
       mjw.forward(m, d)
+      if not np.any(mw.overflow(d)):
+        fitcap = (int(mw.npy(d.nefc).max()), int(mw.npy(d.nacon)[0]))
     else:
       mjw.step(m, d)
-    nacon = int(mw.npy(d.nacon)[0])
-    nefc_all = mw.npy(d.nefc)
-    if nacon > d.naconmax or np.any(nefc_all > d.njmax) or nacon == 0 or not np.all(np.isfinite(mw.npy(d.qacc))) or np.any(mw.overflow(d) & (E.OVF_NEFC | E.OVF_NNZ | E.OVF_CONTACT)):
-      rec.count("evaluations_skipped(capacity/no contacts/diverged)")
-      continue
-    cw = mw.contacts(d, None)
-    wid = cw["worldid"]
-    force_all = np.asarray(mw.npy(d.efc.force), dtype=np.float64)
-    adh = np.asarray(mw.npy(d.contact.adhesion), dtype=np.float64)[:nacon]
-    # ---- reference: mj_contactForce on hand-filled MjData, world by world
-    ref = np.zeros((nacon, 6))
-    mag = np.zeros(nacon)
-    active = np.zeros(nacon, dtype=bool)
-    bad_world = set()
-    for w in range(nworld):
-      sel = np.nonzero(wid == w)[0]
-      if not len(sel):
-        continue
-      blocks, fvec = [], []
-      for c in sel:
-        dim = int(cw["dim"][c])
-        nd = dim if (ell or dim == 1) else 2 * (dim - 1)
-        a = cw["efc_address"][c][:nd]
-        if a[0] < 0:
-          blocks.append(-1)
-          continue
-        if np.any(a < 0) or np.any(a >= nefc_all[w]):
-          bad_world.add(w)  # partially addressed contact: C05 reports that; not decodable
-          blocks.append(-1)
-          continue
-        blocks.append(len(fvec))
-        fvec.extend(force_all[w][a].tolist())
-        active[c] = True
-        mag[c] = float(np.abs(force_all[w][a]).sum()) * (1.0 + float(np.max(cw["friction"][c]))) + abs(adh[c])
-      md = mujoco.MjData(mjm)
-      mujoco._functions._realloc_con_efc(md, ncon=len(sel), nefc=max(1, len(fvec)), nJ=max(1, len(fvec)) * mjm.nv)
-      md.ncon = len(sel)
-      md.efc_force[: len(fvec)] = np.array(fvec)
-      for i, c in enumerate(sel):
-        md.contact.dim[i] = int(cw["dim"][c])
-        md.contact.friction[i] = np.asarray(cw["friction"][c], dtype=np.float64)
-        md.contact.frame[i] = np.asarray(cw["frame"][c], dtype=np.float64).reshape(9)
-        md.contact.adhesion[i] = adh[c]
-        md.contact.efc_address[i] = blocks[i]
-        md.contact.geom[i] = cw["geom"][c]
-      for i, c in enumerate(sel):
-        out = np.zeros(6)
-        mujoco.mj_contactForce(mjm, md, i, out)
-        ref[c] = out
-        if blocks[i] >= 0:
-          dim = int(cw["dim"][c])
-          nd = dim if (ell or dim == 1) else 2 * (dim - 1)
-          mine = numpy_decode(ell, dim, np.asarray(cw["friction"][c], dtype=np.float64), np.array(fvec[blocks[i] : blocks[i] + nd]), adh[c])
-          rec.check()
-          if np.abs(mine - out).max() > 1e-9 * max(1.0, mag[c]):
-            rec.inconcl("reference self-check failed: numpy decode != mj_contactForce on the filled MjData")
-            rec.count("ORACLE_SELFTEST_FAILED")
-            bad_world.add(w)
-    # ---- observed: one call for all worlds, shuffled ids with repeats
-    ids = np.concatenate([np.arange(nacon), rng.integers(0, nacon, size=max(2, nacon // 3))]).astype(np.int32)
-    rng.shuffle(ids)
-    got = {}
-    for flag in (False, True):
-      out = wp.zeros(len(ids), dtype=wp.spatial_vector)
-      mjw.contact_force(m, d, wp.array(ids, dtype=int), flag, out)
-      got[flag] = out.numpy().astype(np.float64)
-    frames = np.asarray(cw["frame"], dtype=np.float64).reshape(-1, 3, 3)
-    worst_l, worst_w = 0.0, 0.0
-    for j, c in enumerate(ids):
-      if int(wid[c]) in bad_world:
-        continue
-      bound = 8 * E.EPS32 * mag[c] + 1e-12
-      loc = got[False][j]
-      rec.check()
-      err = float(np.abs(loc - ref[c]).max())
-      worst_l = max(worst_l, err / bound)
-      dim = int(cw["dim"][c])
-      if not np.all(np.isfinite(loc)):
-        rec.viol("contact_force:nonfinite", f"contact_force returned non-finite values for contact {c} (world {wid[c]}, condim {dim}, {cone})")
-      elif err > 30 * bound:
-        comp = int(np.argmax(np.abs(loc - ref[c])))
-        rec.viol(
-          f"contact_force!=mj_contactForce:{cone}:condim{dim}:component{comp}",
-          f"contact {c} (world {wid[c]}, condim {dim}, {cone}, adhesion {adh[c]:.3g}, active {bool(active[c])}): contact_force={loc.tolist()} mj_contactForce={ref[c].tolist()}",
-          friction=np.asarray(cw["friction"][c]),
-        )
-      elif err > bound:
-        rec.inconcl("contact_force vs mj_contactForce in grey zone")
-      # world frame = frame^T applied to force and torque
-      wv = got[True][j]
-      want = np.concatenate([frames[c].T @ loc[:3], frames[c].T @ loc[3:]])
-      errw = float(np.abs(wv - want).max())
-      wb = 8 * E.EPS32 * float(np.abs(loc).sum()) + 1e-12
-      worst_w = max(worst_w, errw / wb)
-      rec.check()
-      if errw > 30 * wb:
-        rec.viol(f"contact_force:to_world_frame:{cone}", f"contact {c}: world-frame output {wv.tolist()} != frame^T local {want.tolist()}")
-      if active[c]:
-        rec.cover(f"decoded:{cone}:condim{dim}", 1)
-        if np.any(ref[c] != 0):
-          rec.cover(f"decoded_nonzero:{cone}:condim{dim}", 1)
-          nonzero_total += 1
-        if adh[c] != 0:
-          rec.cover("decoded_with_adhesion", 1)
-        if dim > 1 and np.any(ref[c][1:dim] != 0):
-          rec.cover(f"decoded_tangential_nonzero:{cone}", 1)
-        if dim > 3 and np.any(ref[c][3:dim] != 0):
-          rec.cover(f"decoded_torsion_rolling_nonzero:{cone}", 1)
-      else:
-        rec.cover("requested_inactive_contacts", 1)
-    rec.worst("contact_force_local", worst_l)
-    rec.worst("contact_force_world", worst_w)
-    rec.cover("calls", 2)
-    rec.cover("ids_requested", int(len(ids)))
-    rec.cover("calls_mixing_worlds", int(len(set(wid[ids].tolist())) > 1))
+    nonzero_total += evaluate(rec, mjw, wp, mjm, m, d, rng, False) or 0
+  # ---- exact-fit capacities: the same states on a Data that has exactly the rows / contact slots MJWarp needed
+  if case.get("fit") and fitcap is not None and fitcap[0] > 0 and fitcap[1] > 0:
+    m2, mjm2 = m, mjm
+    if mjm.opt.solver == mujoco.mjtSolver.mjSOL_NEWTON and not mujoco.mj_isSparse(mjm):
+      # the dense Newton Hessian kernel is compiled per njmax value; decoding does not depend on the solver, so the
+      # exact-fit pass uses the sparse Jacobian there (keeps the set of compiled kernels small)
+      mjm2 = copy.copy(mjm)
+      mjm2.opt.jacobian = mujoco.mjtJacobian.mjJAC_SPARSE
+      m2 = mw.put_model(mjm2)
+    # naconmax also bounds the broadphase candidate list, so naconmax == nacon can legitimately overflow when there are
+    # more candidate pairs than contacts: then the contact pool keeps its spare slots and only njmax is exact
+    for attempt, caps in enumerate(({"naconmax": fitcap[1]}, {"nconmax": max(64, 3 * ncon + 16)})):
+      d2 = None
+      try:
+        d2 = mw.make_data(mjm2, m2, states, njmax=fitcap[0], **caps)
+      except ValueError as e:
+        rec.count("fit:make_data_rejected")
+        rec.inconcl(f"make_data rejected exact-fit capacities: {e}"[:160])
+        break
+      judged = False
+      for k in range(2):
+        if k == 0:
+          mjw.forward(m2, d2)
+        else:
+          mjw.step(m2, d2)
+        nz = evaluate(rec, mjw, wp, mjm, m2, d2, rng, True)
+        if k == 0 and nz is None:
+          rec.count(("fit:exact_naconmax_overflowed(candidate pairs > contacts)->retry_with_spare_contact_slots", "fit:first_forward_not_judged_with_exact_njmax")[attempt])
+          break
+        judged = True
+        nonzero_total += nz or 0
+      if judged:
+        break
   for f in feat:
     rec.cover("features", f)
   if nonzero_total >= 2:
     rec.nontrivial(xml, *[s["qpos"] for s in states])
-  rec.sample = {"kind": case["kind"], "model": case.get("path", f"seed {case['seed']}"), "nv": mjm.nv, "cone": cone, "nacon": int(mw.npy(d.nacon)[0]), "nonzero_decoded": nonzero_total}
+  rec.sample = {"kind": case["kind"], "model": case.get("path", f"seed {case['seed']}"), "nv": mjm.nv, "cone": cone, "nacon": int(mw.npy(d.nacon)[0]), "nonzero_decoded": nonzero_total, "fitcap": fitcap if case.get("fit") else None}
   return rec.result()
 
 
 def requirements(agg, tier):
   unmet = []
   cov = agg["cover"]
+  big = tier != "quick"
   for cone in ("pyramidal", "elliptic"):
     for dim in (1, 3, 4, 6):
-      if cov.get(f"decoded_nonzero:{cone}:condim{dim}", 0) < (10 if tier == "quick" else 100):
+      if cov.get(f"decoded_nonzero:{cone}:condim{dim}", 0) < (100 if big else 10):
         unmet.append(f"fewer than 10 non-zero decoded contacts for {cone} condim {dim}: {cov.get(f'decoded_nonzero:{cone}:condim{dim}', 0)}")
+      k = f"fit:contact_row_at_njmax-1_nonzero_force:{cone}:condim{dim}"
+      if cov.get(k, 0) < (20 if big else 3):
+        unmet.append(f"exact-fit capacity: fewer than {20 if big else 3} contacts whose last row is row njmax-1 with non-zero force for {cone} condim {dim}: {cov.get(k, 0)}")
     if cov.get(f"decoded_torsion_rolling_nonzero:{cone}", 0) < 10:
       unmet.append(f"fewer than 10 contacts with non-zero torsional/rolling components under {cone}")
-  for k, v in {"decoded_with_adhesion": 20, "calls_mixing_worlds": 10}.items():
+  for k, v in {
+    "decoded_with_adhesion": 20,
+    "calls_mixing_worlds": 10,
+    "fit:worlds_exactly_full(nefc==njmax)": 30,
+    "fit:evaluations_nacon==naconmax": 30,
+    "fit:decoded_contact_in_last_slot(naconmax-1)": 20,
+    "fit:evaluations_mixing_full_and_partly_filled_worlds": 5,
+  }.items():
     if cov.get(k, 0) < v:
       unmet.append(f"{k}: {cov.get(k, 0)} < {v}")
   if agg["tally"].get("ORACLE_SELFTEST_FAILED", 0):
